@@ -311,7 +311,7 @@ impl Array4 {
         mut cursor: SketchSlice,
         cur_min: u8,
         lg_config_k: u8,
-        compact: bool,
+        _compact: bool,
         ooo: bool,
     ) -> Result<Self, Error> {
         let num_bytes = 1 << (lg_config_k - 1); // k/2 bytes for 4-bit packing
@@ -333,13 +333,10 @@ impl Array4 {
 
         // Read packed 4-bit byte array
         let mut data = vec![0u8; num_bytes];
-        if !compact {
-            cursor
-                .read_exact(&mut data)
-                .map_err(insufficient_data("data"))?;
-        } else {
-            cursor.advance(num_bytes as u64);
-        }
+        // The register bytes are present in compact and updatable images alike.
+        cursor
+            .read_exact(&mut data)
+            .map_err(insufficient_data("data"))?;
 
         // Read aux map if present
         let mut aux_map = None;
